@@ -375,3 +375,21 @@ Proof.
   - apply (interp_node _ H1). unfold re_nodes_R. apply in_map_iff. exists (e, re, im). split; [reflexivity|exact Hin].
   - apply (interp_node _ H2). unfold im_nodes_R. apply in_map_iff. exists (e, re, im). split; [reflexivity|exact Hin].
 Qed.
+
+(* ------------------------------------------------------------------ Formula objects with their own density *)
+(* formula(compound, density=, natural_density=) on a Formula object: the rule of the code is the
+   documented one (density= is the mass density, natural_density= the natural-abundance density; the
+   object's own density only when neither is given) *)
+Theorem formula_density_rule : forall own density natural_density,
+  formula_density_args own density natural_density = spec_density_args own density natural_density.
+Proof. intros own [r|] [nd|]; reflexivity. Qed.
+
+Theorem formula_object_density_keyword_wins : forall D s own rho ws,
+  neutron_scattering_formula D s own (Some rho) None ws = neutron_scattering D s (Some rho) None ws.
+Proof. reflexivity. Qed.
+Theorem formula_object_natural_density_keyword_wins : forall D s own density nd ws,
+  neutron_scattering_formula D s own density (Some nd) ws = neutron_scattering D s density (Some nd) ws.
+Proof. intros D s own [r|] nd ws; reflexivity. Qed.
+Theorem formula_object_own_density_by_default : forall D s own ws,
+  neutron_scattering_formula D s own None None ws = neutron_scattering D s own None ws.
+Proof. reflexivity. Qed.
